@@ -147,6 +147,8 @@ def freeze(v):
     """A hashable stand-in for any value a function may receive."""
     if isinstance(v, DBox):
         return freeze(v.v)
+    if getattr(v, "_pf_term", None) is not None:       # an instance of a `make_dataclass` callable: the term of its construction
+        return v._pf_term
     if v is np.ma.masked:
         return Term("$masked", ())
     if isinstance(v, np.ma.MaskedArray):
@@ -167,6 +169,8 @@ def enc(v):
     """JSON encoding of a value (see module docstring)."""
     if isinstance(v, DBox):
         return enc(v.v)
+    if getattr(v, "_pf_term", None) is not None:
+        return enc(v._pf_term)
     if v is np.ma.masked:
         return "M"
     if isinstance(v, Term):
@@ -383,3 +387,33 @@ def make_func(name, params, outputs, defaults=None, internal_shape=None, log=Non
     fn = ns[name]
     fn.__module__ = "__main__"
     return fn
+
+
+def make_dataclass(name, params, defaults=None, log=None):
+    """A DATACLASS `name(p1, p2=default, ...)` used AS the user function (pipefunc accepts dataclasses and pydantic models as callables and
+    reads parameters and defaults from the FIELDS: `PipeFunc.defaults` has a branch of its own for them).  The instance is the value of
+    the output; `__post_init__` is the user code (it logs the call like `make_func`); `freeze` / `enc` read an instance as the term
+    `name(**fields)`, i.e. exactly what the plain function of the same name would have returned.  Fields are keyword-only (no ordering
+    constraint between defaulted and required ones); a default that `dataclasses` refuses as mutable goes through `default_factory`."""
+    import dataclasses
+    defaults = defaults or {}
+    log = log if log is not None else LOG
+
+    def __post_init__(self):
+        kw_frozen = sorted((p, freeze(getattr(self, p))) for p in params)
+        kw_enc = [[k, enc(v)] for k, v in kw_frozen]
+        log.add(name, kw_enc, "call")
+        self._pf_term = Term(name, kw_frozen)
+        log.add(name, kw_enc, "done")
+
+    fields = []
+    for p in params:
+        if p not in defaults:
+            fields.append((p, object))
+        elif getattr(type(defaults[p]), "__hash__", None) is None:
+            fields.append((p, object, dataclasses.field(default_factory=lambda v=defaults[p]: v)))
+        else:
+            fields.append((p, object, dataclasses.field(default=defaults[p])))
+    cls = dataclasses.make_dataclass(name, fields, kw_only=True, eq=False, namespace={"__post_init__": __post_init__})
+    cls.__module__ = "__main__"
+    return cls
